@@ -26,7 +26,7 @@ Useful functions for generating HiFiber code
 
 from copy import deepcopy
 
-from typing import Any
+from typing import Any, Sequence, Union
 
 from teaal.hifiber import *
 from teaal.ir.program import Program
@@ -91,11 +91,13 @@ class TransUtils:
         return SExpr(set_call)
 
     @staticmethod
-    def build_shape(ranks: Sequence[str]) -> Argument:
+    def build_shape(ranks: Sequence[Union[str, Expression]]) -> Argument:
         """
-        Build the shape argument
+        Build the shape argument from the names of the extents (or the
+        expressions that compute them)
         """
-        rank_vars = [EVar(rank) for rank in ranks]
+        rank_vars = [EVar(rank) if isinstance(rank, str) else rank
+                     for rank in ranks]
         return AParam("shape", EList(rank_vars))
 
     @staticmethod
